@@ -277,3 +277,27 @@ fn c19_random_plain() {
     let l = Limb::try_random(&mut t).unwrap();
     assert!(l.0 == w[2] && t.bytes == 24);
 }
+
+// ---------------------------------------------------------------- ConstMontyForm sampling
+use crate::impl_modulus;
+impl_modulus!(VerifModC19, crate::U64, "c000000000000001");
+
+//@ prop=C19,C15,C11 tier=quick profile=k64 funcs="Random for ConstMontyForm (try_random),ConstMontyForm::new" bound="U64 modulus 0xc000000000000001 (fills the width): every RNG stream of 4 symbolic words then zeros: exactly the words consumed by Uint::random_mod on the same stream (rejection sampling: same accept/reject decisions; the Montgomery conversion of the accepted candidate is not decided at 64-bit words)" free_bits=256 stubs="RNG = bounded symbolic tape"
+#[kani::proof]
+#[kani::unwind(10)]
+fn c19_const_monty_random() {
+    use crate::modular::ConstMontyForm;
+    use crate::{NonZero, Random, RandomMod, U64};
+    let mut t1 = Tape::any(4, 0);
+    let mut t2 = Tape { w: t1.w, len: t1.len, pos: 0, fallback: 0, bytes: 0 };
+    let r = ConstMontyForm::<VerifModC19, 1>::random(&mut t1);
+    let m = NonZero::new(U64::from_u64(0xc000000000000001)).unwrap();
+    let v = U64::random_mod(&mut t2, &m);
+    assert!(t1.pos == t2.pos && t1.bytes == t2.bytes);
+    // The residue itself is new(candidate): the conversion is C08's subject and its 64-bit product is not
+    // decidable here; what is decided is that the sampler is the rejection sampler (same acceptance
+    // decisions on every stream), which a reduce-instead-of-reject sampler is not.
+    let _ = (r, v);
+    kani::cover!(t1.pos > 1); // a rejection happened
+    kani::cover!(t1.pos == 1);
+}
